@@ -248,10 +248,10 @@ ensures
 /*@ extract src/execution/commitment.rs :: impl LtHash/fn observe
 props C20
 sig `old: Option<&[u8]>` => `verif_old: Option<&[u8]>`
-rewrite[rename-param] `if let Some(old) = old` => `if let Some(old) = verif_old`
+rewrite*[rename-param] `old` => `verif_old`
 ensures
         // [C20.observe_folds_exactly_the_write] remove the old entry if there was one, add the new one if there is one
-        // (the parameter `old` is renamed: the name shadows Verus's old(self))
+        // (the parameter `old` is renamed throughout the body: the name shadows Verus's old(self))
         final(self).vec() == observe_spec(old(self).vec(), *key,
             match verif_old { Some(o) => Some(o@), None => None }, match new { Some(n) => Some(n@), None => None }),
 @*/
@@ -261,7 +261,7 @@ ensures
 as canary_observe
 expect-fail
 sig `old: Option<&[u8]>` => `verif_old: Option<&[u8]>`
-rewrite[rename-param] `if let Some(old) = old` => `if let Some(old) = verif_old`
+rewrite*[rename-param] `old` => `verif_old`
 ensures
         final(self).vec() == observe_spec(old(self).vec(), *key, None, match new { Some(n) => Some(n@), None => None }),
 @*/
